@@ -30,7 +30,11 @@ func genTimeout(r *rng, n int, tier string, emit func(string)) {
 	if tier == "thorough" {
 		for i := 0; i < n; i++ {
 			role := r.pickS("root", "inner", "leaf", "handler")
-			emit(fmt.Sprintf("to %d stall=%s:%s n=%d fill=0 pw=%d hw=%d", r.pick(1, 2, 6), role, r.pickS("forever", "long"), r.intn(4)+1, r.pick(1, 2, 3), r.pick(1, 2, 4)))
+			pw, hw := int(r.pick(1, 2, 3)), int(r.pick(1, 2, 4))
+			// keep the number of events within what the pipeline can absorb above the stalled node, so that the main loop is
+			// not blocked on a full root buffer (that situation is the separate fill=1 scenario, known finding F6)
+			room := map[string]int{"root": pw + 1, "inner": pw + 2, "leaf": pw + 4, "handler": hw + 6}[role]
+			emit(fmt.Sprintf("to %d stall=%s:%s n=%d fill=0 pw=%d hw=%d", r.pick(1, 2, 6), role, r.pickS("forever", "long"), r.intn(room)+1, pw, hw))
 		}
 		emit("to 2 stall=inner:forever n=120 fill=1 pw=2 hw=1")
 		emit("to 3 stall=none:forever n=40 fill=0 pw=1 hw=1")
